@@ -230,6 +230,19 @@ impl RecvWindow {
                 Err(ErrorCode::InvalidData)?;
             }
 
+            if self.rem_msg_len > 0 {
+                warn!("RX data integrity failure: BEGINNING_SEGMENT while the previous SDU is incomplete");
+                Err(ErrorCode::InvalidData)?;
+            }
+        }
+
+        let rem_msg_len = hdr.get_msg_len().unwrap_or(self.rem_msg_len);
+        if !hdr.is_final() && !payload.is_empty() && rem_msg_len as usize == payload.len() {
+            warn!("RX data integrity failure: Message length reached but the packet is not final");
+            Err(ErrorCode::InvalidData)?;
+        }
+
+        if let Some(msg_len) = hdr.get_msg_len() {
             self.rem_msg_len = msg_len;
 
             if msg_len > 0 {
